@@ -85,6 +85,8 @@ def one_case(ctx, alg, cfg, name, op, force_keysets=None):
     composite = op in ops.COMPOSITE_BIN or op in ops.COMPOSITE_UN or op == 'norm'
     cap = 3 if composite else 4
     graded = bool(cfg.get('opts', {}).get('graded'))
+    if graded and op == 'exp':
+        return None     # complete grades are not simple elements in general: exp is only defined where the square is a scalar
     if graded:
         # graded mode: operands hold complete grades in canonical order
         keysets = []
